@@ -22,7 +22,7 @@ RULE = ("correspondence: real AndersonCD._solve vs skeleton on mock kernels (eve
 
 
 def correspondence(tier, rng):
-    n = 60 if tier == "quick" else 400
+    n = 400 if tier == "quick" else 3000
     cases, dist = harness_acd.make_cases(rng, n)
     r1 = tvlib.run_cases(cases, ["Skel.AndersonCD", "Skel.MockACD"], "C17a", shard=12, jobs=16)
     base = dict(cases=len(cases), bad=r1["bad"][:10], errors=r1["errors"], distribution=dist,
